@@ -17,6 +17,27 @@ Theorem C20_allowed : forall c : N, c < 65536 ->
    (1000 <= c <= 1003) \/ (1007 <= c <= 1013) \/ (3000 <= c <= 4999)).
 Proof. intros c _. exact (close_allowed_iff c). Qed.
 
+(* "without loss", stated as injectivity: two different 16-bit codes never decode to the same CloseCode *)
+Theorem C20_of_inj : forall a b : N, a < 65536 -> b < 65536 -> close_of_u16 a = close_of_u16 b -> a = b.
+Proof. intros a b _ _ H. rewrite <- (close_to_of a), <- (close_to_of b), H. reflexivity. Qed.
+
+(* ... and two different decodable CloseCodes never encode to the same number *)
+Theorem C20_to_inj : forall v w : close_code,
+  (exists c, c < 65536 /\ v = close_of_u16 c) -> (exists c, c < 65536 /\ w = close_of_u16 c) ->
+  close_to_u16 v = close_to_u16 w -> v = w.
+Proof.
+  intros v w Hv Hw H. rewrite <- (close_roundtrip_image v Hv), <- (close_roundtrip_image w Hw), H. reflexivity.
+Qed.
+
+(* is_allowed depends only on the numeric value: the named variants and the range variants agree with the table *)
+Theorem C20_allowed_by_value : forall v : close_code,
+  (exists c, c < 65536 /\ v = close_of_u16 c) ->
+  (close_allowed v = true <->
+   (1000 <= close_to_u16 v <= 1003) \/ (1007 <= close_to_u16 v <= 1013) \/ (3000 <= close_to_u16 v <= 4999)).
+Proof.
+  intros v [c [Hc ->]]. rewrite close_to_of. exact (close_allowed_iff c).
+Qed.
+
 (* non-vacuity: both sides of the iff are inhabited *)
 Example C20_allowed_yes : close_allowed (close_of_u16 3000) = true. Proof. reflexivity. Qed.
 Example C20_allowed_no : close_allowed (close_of_u16 1005) = false. Proof. reflexivity. Qed.
@@ -24,3 +45,6 @@ Example C20_allowed_no : close_allowed (close_of_u16 1005) = false. Proof. refle
 Print Assumptions C20_to_of.
 Print Assumptions C20_of_to_of.
 Print Assumptions C20_allowed.
+Print Assumptions C20_of_inj.
+Print Assumptions C20_to_inj.
+Print Assumptions C20_allowed_by_value.
